@@ -5,6 +5,7 @@ package kaisim
 
 import (
 	"fmt"
+	"runtime/debug"
 	"sort"
 	"strings"
 	"sync"
@@ -276,12 +277,13 @@ func (c SchedConfig) build() (*conf.SchedulerConfiguration, *conf.SchedulerParam
 }
 
 type SchedActor struct {
-	API     *SimAPI
-	Clients *Clients
-	Obs     *obsCache
-	sched   *scheduler.Scheduler
-	stopCh  chan struct{}
-	Panic   string
+	API        *SimAPI
+	Clients    *Clients
+	Obs        *obsCache
+	sched      *scheduler.Scheduler
+	stopCh     chan struct{}
+	Panic      string
+	PanicStack string
 }
 
 func NewSchedActor(api *SimAPI, cfg SchedConfig, hooks SessionHooks) *SchedActor {
@@ -315,6 +317,7 @@ func (a *SchedActor) RunCycle(cycle int) (panicked bool) {
 	defer func() {
 		if r := recover(); r != nil {
 			a.Panic = fmt.Sprintf("%v", r)
+			a.PanicStack = string(debug.Stack())
 			panicked = true
 		}
 	}()
